@@ -295,6 +295,11 @@ class C19(Prop):
         "AwProofs.C19.categorize_deepest_last",
         "AwProofs.C19.tag_exact_in_rule_order",
         "AwProofs.C19.rule_match_iff",
+        "AwProofs.C19.rule_match_iff_constructed",
+        "AwProofs.C19.deepestLast_unique",
+        "AwProofs.C19.categorize_nonempty_categories",
+        "AwProofs.C19.simplify_string_returns_iff",
+        "AwProofs.C19.shape_spelled_out",
     ]
     TRUSTED = [
         "re (CPython's regex engine) is a parameter: re.compile(p, IGNORECASE?|UNICODE).search(v) is evaluated by the harness for every (pattern, flag, string value) of a case and sent to the model as a table",
